@@ -27,3 +27,5 @@ open SteelVerif.C17
 #print axioms native_backedges_listed
 #print axioms trampoline_calls_once
 #print axioms iteration_errors_propagate
+#print axioms ready_host
+#print axioms interrupt_bounded_host
